@@ -25,7 +25,7 @@ Definition allow (c : rl_cfg) (reqs : list Z) (now : Z) : list Z * bool :=
   let kept := drop_expired (now - r_rate c) reqs in
   if rl_len kept <? r_limit c then (kept ++ [now], true) else (kept, false).
 
-(* state of a run: the limiter's list, and (ghost) every admitted instant so far, in order *)
+(* state of a run: the limiter's list, and (ghost) every granted instant so far, in order *)
 Definition rl_state := (list Z * list Z)%type.
 Definition rl_step (c : rl_cfg) (s : rl_state) (now : Z) : rl_state :=
   let '(q, b) := allow c (fst s) now in (q, if b then snd s ++ [now] else snd s).
@@ -46,7 +46,7 @@ Fixpoint nondecr_from (t : Z) (nows : list Z) : Prop :=
 Definition nondecr (nows : list Z) : Prop :=
   match nows with [] => True | x :: r => nondecr_from x r end.
 
-(* admitted instants inside the half-open window [w, w + rate) *)
+(* granted instants inside the half-open window [w, w + rate) *)
 Definition in_window (c : rl_cfg) (w a : Z) : bool := (w <=? a) && (a <? w + r_rate c).
-(* admitted instants within (now - rate, now] (none is later than now) *)
+(* granted instants within (now - rate, now] (none is later than now) *)
 Definition recent (c : rl_cfg) (now a : Z) : bool := now - r_rate c <? a.
